@@ -784,6 +784,95 @@ func init() {
 			}, nil
 		}
 	}
+	// C10: wrapper types of their own whose FIRST use in the process is with profile-1 claims / with profile-2 claims /
+	// with no claims at all: what is encoded for a later value does not depend on what the type was first used with
+	Scenarios["c10.wrapper-first-use"] = func() (choice.Scenario, func() any) {
+		return func(c *choice.Ctx) {
+			stamp := int64(1721138454)
+			which := c.Choose("type", 3)
+			mk := func(x psatoken.IClaims) any {
+				switch which {
+				case 0:
+					return WrapOf[tagP1First]{IClaims: x, Stamp: &stamp}
+				case 1:
+					return WrapOf[tagP2First]{IClaims: x, Stamp: &stamp}
+				}
+				return WrapOf[tagNilFirst]{IClaims: x, Stamp: &stamp}
+			}
+			order := [][]int{{kindP1, kindP2, kindP1}, {kindP2, kindP1, kindP2}, {-1, kindP2, kindP1}}[which]
+			for i, kind := range order {
+				if kind < 0 {
+					_, _ = extEM.Marshal(mk(nil)) // nothing is demanded of a wrapper around nothing
+					continue
+				}
+				a := genValidOpt(c, kind, false, true)
+				x, err := buildBySetters(a)
+				if err != nil {
+					return
+				}
+				tag := fmt.Sprintf("%s:wrapper-first-use:type-%d:use-%d", kindNames[kind], which, i)
+				encStats.StateStr(tag + a.String())
+				enc, err := extEM.Marshal(mk(x))
+				encStats.Trans.Add(1)
+				if err != nil {
+					c.Failf("C10:encode-error:"+tag, "%v", err)
+					continue
+				}
+				c10Strict(c, encStats, a, enc, tag, map[int64]bool{-75100: true})
+			}
+		}, nil
+	}
+	// C09: the same for the round trip through the wrapper's own decoder
+	Scenarios["c09.wrapper-first-use"] = func() (choice.Scenario, func() any) {
+		return func(c *choice.Ctx) {
+			stamp := int64(1721138454)
+			which := c.Choose("type", 2)
+			order := [][]int{{kindP2, kindP1, kindP2}, {kindP1, kindP2, kindP1}}[which]
+			for i, kind := range order {
+				a := genValidOpt(c, kind, false, true)
+				x, err := buildBySetters(a)
+				if err != nil {
+					return
+				}
+				fresh, err := psatoken.NewClaims(a.Canon)
+				if err != nil {
+					return
+				}
+				tag := fmt.Sprintf("%s:wrapper-first-use:type-%d:use-%d", kindNames[kind], which, i)
+				encStats.StateStr(tag + a.String())
+				var enc []byte
+				var y psatoken.IClaims
+				var derr error
+				if which == 0 {
+					enc, err = extEM.Marshal(WrapOf[tagC09a]{IClaims: x, Stamp: &stamp})
+					w := &WrapOf[tagC09a]{IClaims: fresh}
+					if err == nil {
+						derr = extDM.Unmarshal(enc, w)
+					}
+					y = w.IClaims
+				} else {
+					enc, err = extEM.Marshal(WrapOf[tagC09b]{IClaims: x, Stamp: &stamp})
+					w := &WrapOf[tagC09b]{IClaims: fresh}
+					if err == nil {
+						derr = extDM.Unmarshal(enc, w)
+					}
+					y = w.IClaims
+				}
+				encStats.Trans.Add(2)
+				if err != nil {
+					c.Failf("C09:encode-error:"+tag, "%v", err)
+					continue
+				}
+				if derr != nil {
+					c.Failf("C09:own-encoding-does-not-decode:"+tag, "%v\n%x", derr, clip(enc))
+					continue
+				}
+				if g1, g2 := getterVector(x), getterVector(y); g1 != g2 {
+					c.Failf("C09:round-trip-differs:"+tag, "getters\n before %s\n after  %s", g1, g2)
+				}
+			}
+		}, nil
+	}
 	// C10: claims types that have no encoding methods of their own and embed the profile-2 claims by value, by pointer
 	// and through two pointers, through every encoding entry point: the base claims and the added ones are one map
 	Scenarios["c10.plain-embedding-types"] = func() (choice.Scenario, func() any) {
@@ -1556,6 +1645,7 @@ func init() {
 					exploreChoice(r, "c09.shadowing-profile", 2, dl)
 					exploreChoice(r, "c09.odd-fields-profile", 2, dl)
 					exploreChoice(r, "c09.plain-claims-type", 2, dl)
+					exploreChoiceOpts(r, "c09.wrapper-first-use", 1, dl, 1)
 					for kind := 0; kind < 2; kind++ {
 						exploreChoice(r, fmt.Sprintf("c09.decode-change-roundtrip.%s", kindNames[kind]), b, dl)
 						exploreChoice(r, fmt.Sprintf("c09.method-decode-after-rejected.%s", kindNames[kind]), b, dl)
@@ -1580,6 +1670,7 @@ func init() {
 					if kind == 0 {
 						exploreChoiceOpts(r, "c10.wrapper-claims", 2, dl, 1)
 						exploreChoiceOpts(r, "c10.plain-embedding-types", 2, dl, 1)
+						exploreChoiceOpts(r, "c10.wrapper-first-use", 1, dl, 1)
 						exploreChoice(r, "c10.caller-reuses-list", -1, dl)
 					}
 				}
